@@ -75,6 +75,10 @@ def prod(
     """
     a = numpoly.aspolynomial(a)
     assert out is None
+    if isinstance(axis, (int, numpy.integer)):
+        axis = int(axis) + a.ndim if axis < 0 else int(axis)
+    elif axis is not None:
+        axis = [int(idx) + a.ndim if idx < 0 else int(idx) for idx in axis]
     if keepdims:
         if axis is None:
             out = _prod(numpoly.reshape(a, -1), axis=0)
@@ -90,9 +94,10 @@ def prod(
         out = _prod(a, axis=axis)
 
     else:
-        for idx in axis:
+        for idx in axis if keepdims else sorted(axis, reverse=True):
             a = _prod(a, axis=idx)
-            a = a[(slice(None),) * idx + (numpy.newaxis,)]
+            if keepdims:
+                a = a[(slice(None),) * idx + (numpy.newaxis,)]
         out = a
 
     return out
